@@ -9,6 +9,7 @@ import (
 	"errors"
 	"io"
 	"net"
+	"os"
 	"time"
 
 	"github.com/fabiolb/fabio/zzverif/vsched"
@@ -36,6 +37,8 @@ type Conn struct {
 	// EOFWithData: like crypto/tls, deliver the end of the stream together with
 	// the last bytes (Read returns n > 0 and io.EOF in the same call)
 	EOFWithData bool
+	// read / write deadlines on the virtual clock (0 = none)
+	rdl, wdl int64
 }
 
 var ErrClosed = errors.New("vnet: use of closed connection")
@@ -52,9 +55,19 @@ func Pair(aName string, aAddr net.Addr, bName string, bAddr net.Addr) (*Conn, *C
 
 func (c *Conn) Read(p []byte) (int, error) {
 	vsched.PointL(c.Name + ".Read")
-	vsched.BlockUntil(c.Name+".Read", func() bool { return c.closed || len(c.rd.segs) > 0 || c.rd.closedW })
+	if c.rdl != 0 && vsched.Active() {
+		if rem := c.rdl - vsched.Now(); rem > 0 {
+			vsched.AfterFunc(rem, func() {}) // lets virtual time reach the deadline when everything waits
+		}
+	}
+	vsched.BlockUntil(c.Name+".Read", func() bool {
+		return c.closed || len(c.rd.segs) > 0 || c.rd.closedW || (c.rdl != 0 && vsched.Now() >= c.rdl)
+	})
 	if c.closed {
 		return 0, ErrClosed
+	}
+	if len(c.rd.segs) == 0 && !c.rd.closedW && c.rdl != 0 && vsched.Now() >= c.rdl {
+		return 0, os.ErrDeadlineExceeded
 	}
 	if len(c.rd.segs) > 0 {
 		s := c.rd.segs[0]
@@ -77,6 +90,9 @@ func (c *Conn) Write(p []byte) (int, error) {
 	vsched.PointL(c.Name + ".Write")
 	if c.closed || c.wr.closedW {
 		return 0, ErrClosed
+	}
+	if c.wdl != 0 && vsched.Active() && vsched.Now() >= c.wdl {
+		return 0, os.ErrDeadlineExceeded
 	}
 	if len(p) == 0 {
 		return 0, nil
@@ -122,11 +138,28 @@ func (c *Conn) CloseWrite() error {
 	return nil
 }
 
-func (c *Conn) LocalAddr() net.Addr                { return c.local }
-func (c *Conn) RemoteAddr() net.Addr               { return c.remote }
-func (c *Conn) SetDeadline(t time.Time) error      { return nil }
-func (c *Conn) SetReadDeadline(t time.Time) error  { return nil }
-func (c *Conn) SetWriteDeadline(t time.Time) error { return nil }
+func (c *Conn) LocalAddr() net.Addr  { return c.local }
+func (c *Conn) RemoteAddr() net.Addr { return c.remote }
+
+// Deadlines are kept on the scheduler's virtual clock: the code under test computes them from the real
+// clock (time.Now().Add(d)); the distance to the real now is carried over to the virtual now.
+func (c *Conn) SetDeadline(t time.Time) error {
+	c.SetReadDeadline(t)
+	return c.SetWriteDeadline(t)
+}
+func (c *Conn) SetReadDeadline(t time.Time) error  { c.rdl = virtualDeadline(t); return nil }
+func (c *Conn) SetWriteDeadline(t time.Time) error { c.wdl = virtualDeadline(t); return nil }
+
+func virtualDeadline(t time.Time) int64 {
+	if t.IsZero() || !vsched.Active() {
+		return 0
+	}
+	d := vsched.Now() + int64(time.Until(t))
+	if d <= 0 {
+		d = 1
+	}
+	return d
+}
 
 // Closed reports whether this end was closed.
 func (c *Conn) Closed() bool { return c.closed }
